@@ -141,7 +141,7 @@ class RawMeshData:
 
     def _prepare_vertices(self):
         for iv in self.id_vertices:
-            self.vertices[iv] = Vec(self.vertices[iv])
+            self.vertices[iv] = Vec(self.vertices[iv]).copy()
 
     def _prepare_edges(self):
         N = len(self.vertices)
